@@ -329,15 +329,12 @@ def term_of(x, w=None, signed=None):
 
 class SInt:
     """symbolic python int: z3 bit-vector t read signed or unsigned; ops widen, never wrap"""
-    __slots__ = ("t", "signed")
+    __slots__ = ("t", "signed", "w")
 
     def __init__(self, t, signed=False):
         self.t = t
         self.signed = signed
-
-    @property
-    def w(self):
-        return self.t.size()
+        self.w = t.size()
 
     @staticmethod
     def lift(x):
@@ -617,6 +614,11 @@ class SInt:
         o = SInt.lift(o)
         if o is None:
             return NotImplemented
+        if _IRRELEVANT:
+            f = sys._getframe(2)
+            h = _IRRELEVANT.get(f.f_code)
+            if h is not None and h(f):
+                return False
         a, b, s, w = SInt.common(self, o)
         return eng().branch(fs(a, b) if s else fu(a, b))
 
@@ -700,6 +702,26 @@ class SInt:
     @property
     def numerator(self):
         return self
+
+
+# call sites whose comparison result provably cannot influence the program (sound shortcuts, listed in STUBS):
+#   crysp.bits.Bits.__init__:  `if self.ival>0 and (size is None)`  -- irrelevant whenever size is not None
+_IRRELEVANT = {}
+
+
+def register_irrelevant(code, pred):
+    _IRRELEVANT[code] = pred
+
+
+def _install_bits_shortcut():
+    try:
+        from crysp.bits import Bits
+        register_irrelevant(Bits.__init__.__code__, lambda f: f.f_locals.get("size") is not None)
+    except Exception:
+        pass
+
+
+_install_bits_shortcut()
 
 
 def conc(x):
@@ -1043,4 +1065,5 @@ class injected:
 
 STUBS = ["isinstance (SInt is an int, SBytes is bytes)",
          "bytes(list-with-symbolic-ints) -> SBytes",
-         "int(SInt) -> SInt; int.from_bytes on SBytes"]
+         "int(SInt) -> SInt; int.from_bytes on SBytes",
+         "Bits.__init__: the comparison in `if self.ival>0 and (size is None)` is not forked when size is not None (its value cannot matter)"]
